@@ -14,11 +14,12 @@ pub fn run_case(case: &Case) -> Outcome {
         Mode::Session => {
             params.search_on_main = false;
             let steps = case.steps.clone();
+            let tags = case.tags.clone();
             sched::run(
                 params,
                 case.plan.clone(),
                 || crate::uci::uci_talk().map_err(|e| format!("{:#}", e)),
-                Some(move || crate::gui::run_script(steps)),
+                Some(move || crate::gui::run_script(steps, tags)),
             )
         }
         Mode::Autoplay => {
